@@ -667,8 +667,24 @@ func (peer *peer) updatePrefixLimitConfig(conf *oc.Neighbor, c []oc.AfiSafi) (bo
 			}
 		}
 	}
+	carrySessionState(c, x)
 	conf.AfiSafis = c
 	return reachLimit, nil
+}
+
+// carrySessionState copies what the running session negotiated per family
+// (graceful restart and long-lived graceful restart state) from the families
+// in use to the ones of a configuration update that needs no new OPEN.
+func carrySessionState(dst, src []oc.AfiSafi) {
+	for i := range dst {
+		for _, o := range src {
+			// a family occurs once in either list
+			if o.State.Family == dst[i].State.Family {
+				dst[i].MpGracefulRestart.State = o.MpGracefulRestart.State
+				dst[i].LongLivedGracefulRestart.State = o.LongLivedGracefulRestart.State
+			}
+		}
+	}
 }
 
 func (peer *peer) handleUpdate(e *fsmMsg) ([]*table.Path, []bgp.Family, bool) {
